@@ -591,7 +591,7 @@ func hasMinDay(v ir.Value) bool {
 
 func TestRandomSets(t *testing.T) {
 	ev.SetChecks(ev.Scale(4000, 400000))
-	rapid.Check(t, func(rt *rapid.T) {
+	ev.Check(t, func(rt *rapid.T) {
 		c := genCase(rt)
 		if (c.Loader == "document" || c.Loader == "stream") && !documentable(c) {
 			c.Loader = "add"
@@ -610,6 +610,9 @@ func TestReplay(t *testing.T) {
 	}
 	if err != nil {
 		t.Fatal(err)
+	}
+	if ev.ReplayFuzz(t, rf, fuzzProps, nil) {
+		return
 	}
 	var c Case
 	if err := json.Unmarshal(rf.Case, &c); err != nil {
